@@ -275,6 +275,39 @@ def r02d(model: Model, rr: RuleResult):
         if isinstance(st, ast.For) and isinstance(st.target, ast.Name) and any(isinstance(b, ast.AugAssign) for b in st.body):
             inner = st
     if inner is None:
+        # the same renumbering with enumerate: ids count up from the number of glyphs left in place, over the flattened groups, and the order list is
+        # extended with exactly that sequence
+        en_loops = [st for st in walk_body(efi) if isinstance(st, ast.For) and isinstance(st.iter, ast.Call) and norm(st.iter.func) == "enumerate"
+                    and isinstance(st.target, ast.Tuple) and len(st.target.elts) == 2]
+        okE = False
+        if len(en_loops) == 1:
+            lp_ = en_loops[0]
+            gidv, namev = norm(lp_.target.elts[0]), norm(lp_.target.elts[1])
+            seq = lp_.iter.args[0] if lp_.iter.args else None
+            start = lp_.iter.args[1] if len(lp_.iter.args) > 1 else kwarg(lp_.iter, "start")
+            body_t = [norm(b) for b in lp_.body]
+            ext = [c for c in calls_in(efi) if callee_tail(c) in ("extend",) and norm(c.func.value) == "glyph_order" and len(c.args) == 1]
+            app_in = f"glyph_order.append({namev})" in body_t
+            core = seq
+            if isinstance(core, ast.Call) and norm(core.func) in ("tuple", "list") and len(core.args) == 1:
+                core = core.args[0]
+            flat = isinstance(core, ast.Call) and norm(core.func) in ("chain.from_iterable", "itertools.chain.from_iterable") and len(core.args) == 1 and isinstance(core.args[0], ast.Name)
+            okE = flat and start is not None and norm(start) == "len(glyph_order)" and f"color_glyphs[{namev}] = color_glyphs[{namev}]._replace(glyph_id={gidv})" in body_t \
+                and ((len(ext) == 1 and norm(ext[0].args[0]) == norm(seq) and not app_in) or (app_in and not ext))
+            if okE and not app_in:
+                # nothing may change the order list between the start value and the extension
+                ecfg_ = cfg_of(efi)
+                okE = ecfg_.dominates(ecfg_.node_for(lp_), ecfg_.node_for(ext[0]))
+            if okE:
+                gsrc = [n_.id for n_ in ast.walk(seq) if isinstance(n_, ast.Name) and n_.id not in ("chain", "itertools", "tuple", "list")]
+                rr.ok("renumbering: glyph appended to the new order, its ColorGlyph re-bound with that gid, gid incremented")
+                rr.ok(f"the renumbering loop runs over every group the caller passed ({gsrc[0] if gsrc else '?'}; the leading .notdef group is split off)")
+                rr.ok("numbering starts after the glyphs that are not moved")
+                ro = find_calls(efi, "reorder_glyphs")
+                if len(ro) == 1 and [norm(a) for a in ro[0].args] == ["ttfont", "glyph_order"] and ecfg_.postdominates(ecfg_.node_for(ro[0]), ecfg_.entry) if not app_in else True:
+                    rr.ok("font reordered with the same glyph_order that was used for numbering")
+                    rr.ok("every normal path through the renumbering step reaches reorder_glyphs (no early return)")
+                    return
         raise AnalysisError("_ensure_groups_grouped_in_glyph_order: renumbering loop not found")
     g = inner.target.id
     t = [norm(b) for b in inner.body]
